@@ -370,3 +370,27 @@ func VF_C02_connections_independent() {
 		vfAssert(len(out.cmds[0]) == 2 && string(out.cmds[0][0]) == "PING" && vfBytesEq(out.cmds[0][1], arg), "second-connection-command-changed")
 	}
 }
+
+// C04 (no input takes the server down) for the first code that touches a client's bytes: the parser
+// goroutine is not covered by any recover, so a panic in it ends the process. Arbitrary streams of up to 6
+// bytes (quick) / 8 bytes (thorough), read to the first error or EOF: no panic, no hang, no runaway
+// allocation (reported by the engine as PANIC / UNWIND / ALLOC verdicts).
+func c04ParserArbitrary(maxLen int) {
+	vfOpt("hangcheck", 1)
+	stream := vfBytes("s", 0, maxLen)
+	conn := vfNewConn("P", false)
+	ch := ParseStream(context.Background(), conn)
+	vfSpawn(func() { c02Feed(conn, stream, nil) })
+	n := 0
+	for i := 0; i < maxLen+2; i++ {
+		r, ok := <-ch
+		if !ok || r.Err != nil {
+			break
+		}
+		n++
+	}
+	vfAssert(n <= maxLen, "parser-delivers-more-values-than-bytes")
+}
+
+func VF_C04_parser_arbitrary_quick()    { c04ParserArbitrary(6) }
+func VF_C04_parser_arbitrary_thorough() { c04ParserArbitrary(8) }
